@@ -988,6 +988,82 @@ let run_chipmon_line (line : string) : string =
         (String.concat "," (List.filter_map (fun i -> if !m.valid i then Some (string_of_int (int_of_nat (item_tag i))) else None) all_items)))
       (List.tl parts))
 
+(* ------------------------------------------------------------------ async_device front-end histories (Model/AsyncDev.v) *)
+let rec atev_str = function
+  | ATx (c, frame) -> Printf.sprintf "tx[%s/%d/%d pw=%s %s]" (dec_of_n c.tx_rf.rf_freq) (int_of_n c.tx_rf.rf_sf) (int_of_n c.tx_rf.rf_bw) (dec_of_z c.tx_pw) (hex_of_bytes frame)
+  | ASetupRx (rf, single) ->
+    Printf.sprintf "setup_rx[%s/%d/%d/%d %s]" (dec_of_n rf.rf_freq) (int_of_n rf.rf_sf) (int_of_n rf.rf_bw) (int_of_n rf.rf_max_payload)
+      (match single with Some ms -> "single" ^ dec_of_n ms | None -> "cont")
+  | ARxSingle -> "rx_single" | ARxCont -> "rx_continuous" | ARxContPending -> "rx_continuous:pending" | ALowPower -> "low_power"
+  | ATimerReset -> "timer.reset" | ATimerAt ms -> "timer.at(" ^ dec_of_n ms ^ ")"
+  | AFault w -> atev_str w ^ "!ERR"
+  | AScriptErr cont -> if cont then "rx_continuous!ERR" else "rx_single!ERR"
+let script_of (s : string) : sev list =
+  List.map (fun x -> if x = "E" then SvE else if x = "P" then SvP else if String.length x > 0 && x.[0] = 'X' then SvX (bytes_of_hex (String.sub x 1 (String.length x - 1))) else SvT)
+    (String.split_on_char ',' s)
+let run_adev_line (line : string) : string =
+  let parts = List.map String.trim (String.split_on_char '|' line) in
+  let head = List.filter (fun s -> s <> "") (String.split_on_char ' ' (List.hd parts)) in
+  let r = ref 5 and lead = ref 15 and classc = ref false and fault = ref None and bias = ref "-" and session = ref None in
+  List.iter (fun kv -> match String.index_opt kv '=' with
+    | Some i -> let k = String.sub kv 0 i and v = String.sub kv (i + 1) (String.length kv - i - 1) in
+      (match k with "r" -> r := int_of_string v | "lead" -> lead := int_of_string v | "classc" -> classc := (v <> "0")
+                  | "fault" -> fault := (if v = "-" then None else Some (n_of_dec v)) | "bias" -> bias := v | "session" -> session := Some v | _ -> ())
+    | None -> ()) (List.tl head);
+  let m0 = mac_new (n_of_int !r) (n_of_int 22) (z_of_int 0) in
+  let m0 = if !bias <> "-" && (!r = 4 || !r = 8) then begin
+      let i = String.index !bias ':' in
+      let sb = int_of_string (String.sub !bias 0 i) and nr = int_of_string (String.sub !bias (i + 1) (String.length !bias - i - 1)) in
+      (match m0.m_region.rg_plan with
+       | PFix fp -> with_region m0 { rg_id = m0.m_region.rg_id;
+                                     rg_plan = PFix { fp_mask = fp.fp_mask;
+                                                      fp_jc = { fp.fp_jc with jc_preferred = Some (n_of_int sb); jc_max_retries = n_of_int nr } } }
+       | _ -> m0)
+    end else m0 in
+  let m0 = (match !session with
+      | None -> m0
+      | Some v -> (match String.split_on_char ':' v with
+          | [nwk; app; addr; up] ->
+            let s0 = session_new (bytes_of_hex nwk) (bytes_of_hex app) (n_of_dec addr) in
+            with_state m0 (Joined { s0 with ss_fcnt_up = n_of_dec up })
+          | _ -> m0)) in
+  let d = ref { ad_mac = m0; ad_classc = !classc; ad_lead = n_of_int !lead } in
+  let calls = ref N0 in
+  let out = ref [] in
+  let stop = ref false in
+  let resp_of = function
+    | AOk r -> resp_str r | AErr ERadioErr -> "Err(Radio)" | AErr EMacNotJoined -> "Err(Mac(NotJoined))"
+    | APanic -> "PANIC" | AHang -> "HANG" | AParked -> "PARKED" in
+  List.iter (fun op ->
+    if not !stop then begin
+      let a = List.filter (fun s -> s <> "") (String.split_on_char ' ' op) in
+      let env0 script = { e_script = script; e_calls = !calls; e_fault = !fault; e_trace = [] } in
+      let finish ?(join = false) (((d', e'), res) : (adev * env) * response ares) =
+        d := d'; calls := e'.e_calls;
+        let t = String.concat " " (List.rev_map atev_str e'.e_trace) in
+        (match res with APanic | AHang -> stop := true | _ -> ());
+        let rs = (match res with AErr _ when join -> "Err" | _ -> resp_of res) in
+        out := Printf.sprintf "%s :: %s" rs t :: !out in
+      match a with
+      | [] -> ()
+      | "abp" :: nwk :: app :: addr :: _ ->
+        d := with_mac !d (with_state !d.ad_mac (Joined (session_new (bytes_of_hex nwk) (bytes_of_hex app) (n_of_dec addr))));
+        out := "Some(Ok(JoinSuccess)) :: " :: !out
+      | "join" :: de :: ae :: key :: dr :: sc :: _ ->
+        finish ~join:true (x_adev_join !d (env0 (script_of sc)) { cr_deveui = n_of_dec de; cr_appeui = n_of_dec ae; cr_appkey = bytes_of_hex key } (draws_of dr))
+      | "send" :: data :: port :: conf :: dr :: sc :: _ ->
+        finish (x_adev_send !d (env0 (script_of sc)) (bytes_of_hex data) (ni port) (bool_of_tok conf) (draws_of dr))
+      | "listen" :: sc :: _ -> finish (x_adev_listen !d (env0 (script_of sc)))
+      | "dr" :: v :: _ -> d := with_mac !d (set_datarate !d.ad_mac (ni v)); out := "ok :: " :: !out
+      | "adr" :: v :: _ -> d := with_mac !d (set_adr !d.ad_mac (bool_of_tok v)); out := "ok :: " :: !out
+      | "fcnt" :: _ ->
+        out := (match !d.ad_mac.m_state with
+            | Joined s -> Printf.sprintf "Some((%s, %s)) :: " (dec_of_n s.ss_fcnt_up) (match s.ss_fcnt_down with None -> "None" | Some f -> "Some(" ^ dec_of_n f ^ ")")
+            | _ -> "None :: ") :: !out
+      | _ -> out := "BADOP :: " :: !out
+    end) (List.tl parts);
+  String.concat " ; " (List.rev !out)
+
 let () =
   (try
     while true do
@@ -998,6 +1074,7 @@ let () =
         | [] -> ""
         | "mac" :: _ -> (try run_mac_history line with e -> "DRIVER-EXN " ^ Printexc.to_string e)
         | "phy" :: _ -> (try run_phy_line line with e -> "DRIVER-EXN " ^ Printexc.to_string e)
+        | "adev" :: _ -> (try run_adev_line line with e -> "DRIVER-EXN " ^ Printexc.to_string e)
         | "chipmon" :: _ -> (try run_chipmon_line line with e -> "DRIVER-EXN " ^ Printexc.to_string e)
         | ("lora" | "lwr") :: _ -> (try run_lora_line line with e -> "DRIVER-EXN " ^ Printexc.to_string e)
         | op :: args ->
